@@ -56,77 +56,77 @@ Located(d) == Len(d.locs) >= 1
 -----------------------------------------------------------------------------
 (* Message templates (src/eval/error.rs `display` strings, user-facing).   *)
 
-M_Undefined(name) == <<S("'"), Bt(name), S("' is not defined")>>
-M_AlreadyInBinding(name) == <<S("'"), Bt(name), S("' is bound multiple times in this binding")>>
+M_Undefined(name) == <<PS("'"), PB(name), PS("' is not defined")>>
+M_AlreadyInBinding(name) == <<PS("'"), PB(name), PS("' is bound multiple times in this binding")>>
 M_AlreadyInScope(name, prev) ==
-    <<S("'"), Bt(name), S("' is already defined in the current scope at ["), L(prev), S("]")>>
-M_InvalidBindTarget(descr) == <<S("cannot bind to "), S(descr)>>
+    <<PS("'"), PB(name), PS("' is already defined in the current scope at ["), PL(prev), PS("]")>>
+M_InvalidBindTarget(descr) == <<PS("cannot bind to "), PS(descr)>>
 M_IncorrectType(descr, exp, v) ==
-    <<S(descr), S(" must be '"), S(exp), S("', got '"), S(TypeName(v)), S("'")>>
-M_StringConstructionFailed(descr) == <<S("couldn't create "), S(descr), S(" string: ")>>   \* + opaque tail
-M_CannotCallNonFunc(v) == <<S("can't call '"), S(TypeName(v)), S("' as a function")>>
-M_ArgNumMismatch(need, got) == <<S("expected "), N(need), S(" arguments, got "), N(got)>>
-M_TooFewArgs(min, got) == <<S("expected at least "), N(min), S(" arguments, got "), N(got)>>
-M_BreakOutsideLoop == <<S("'break' can't be used outside of a loop")>>
-M_ContinueOutsideLoop == <<S("'continue' can't be used outside of a loop")>>
-M_ReturnOutsideFunction == <<S("'return' can't be used outside of a function")>>
-M_ForIterNotIterable == <<S("'for' iterator must be a 'list', 'object' or 'string'")>>
-M_ValueNotIndexable == <<S("only 'list's, 'object's or 'string's can be indexed")>>
-M_ValueNotIndexAssignable == <<S("only 'list's or 'object's can update indices")>>
-M_ValueNotRangeIndexAssignable == <<S("only 'list's can update range indices")>>
-M_AssignToTypeProp == <<S("type properties cannot be assigned to")>>
-M_OutOfStringBounds(i) == <<S("index '"), N(i), S("' is outside the string bounds")>>
-M_OutOfListBounds(i) == <<S("index '"), N(i), S("' is outside the list bounds")>>
-M_RangeOutOfStringBounds(a, b) == <<S("range ["), N(a), S(":"), N(b), S("] is outside the string bounds")>>
-M_RangeOutOfListBounds(a, b) == <<S("range ["), N(a), S(":"), N(b), S("] is outside the list bounds")>>
+    <<PS(descr), PS(" must be '"), PS(exp), PS("', got '"), PS(TypeName(v)), PS("'")>>
+M_StringConstructionFailed(descr) == <<PS("couldn't create "), PS(descr), PS(" string: ")>>   \* + opaque tail
+M_CannotCallNonFunc(v) == <<PS("can't call '"), PS(TypeName(v)), PS("' as a function")>>
+M_ArgNumMismatch(need, got) == <<PS("expected "), PN(need), PS(" arguments, got "), PN(got)>>
+M_TooFewArgs(min, got) == <<PS("expected at least "), PN(min), PS(" arguments, got "), PN(got)>>
+M_BreakOutsideLoop == <<PS("'break' can't be used outside of a loop")>>
+M_ContinueOutsideLoop == <<PS("'continue' can't be used outside of a loop")>>
+M_ReturnOutsideFunction == <<PS("'return' can't be used outside of a function")>>
+M_ForIterNotIterable == <<PS("'for' iterator must be a 'list', 'object' or 'string'")>>
+M_ValueNotIndexable == <<PS("only 'list's, 'object's or 'string's can be indexed")>>
+M_ValueNotIndexAssignable == <<PS("only 'list's or 'object's can update indices")>>
+M_ValueNotRangeIndexAssignable == <<PS("only 'list's can update range indices")>>
+M_AssignToTypeProp == <<PS("type properties cannot be assigned to")>>
+M_OutOfStringBounds(i) == <<PS("index '"), PN(i), PS("' is outside the string bounds")>>
+M_OutOfListBounds(i) == <<PS("index '"), PN(i), PS("' is outside the list bounds")>>
+M_RangeOutOfStringBounds(a, b) == <<PS("range ["), PN(a), PS(":"), PN(b), PS("] is outside the string bounds")>>
+M_RangeOutOfListBounds(a, b) == <<PS("range ["), PN(a), PS(":"), PN(b), PS("] is outside the list bounds")>>
 M_RangeStartOutOfListBounds(a, n) ==
-    <<S("range start ("), N(a), S(") is greater than list length ("), N(n), S(")")>>
+    <<PS("range start ("), PN(a), PS(") is greater than list length ("), PN(n), PS(")")>>
 M_RangeStartNotBeforeEnd(a, b) ==
-    <<S("range end ("), N(b), S(") must be greater than range start ("), N(a), S(")")>>
+    <<PS("range end ("), PN(b), PS(") must be greater than range start ("), PN(a), PS(")")>>
 M_RangeEndOutOfListBounds(b, n) ==
-    <<S("range end ("), N(b), S(") is greater than list length ("), N(n), S(")")>>
+    <<PS("range end ("), PN(b), PS(") is greater than list length ("), PN(n), PS(")")>>
 M_RangeIndexItemMismatch(rangeLen, rhsLen) ==
-    <<S("cannot bind "), N(rhsLen), S(" item(s) to "), N(rangeLen), S(" index(s)")>>
-M_ValueNotRangeIndexable == <<S("only 'list's or 'string's can be range-indexed")>>
-M_NegativeIndex == <<S("index can't be negative")>>
-M_ListCollectOutsideDestructure == <<S("cannot collect 'list' items outside a destructure")>>
-M_ObjectCollectOutsideDestructure == <<S("cannot collect 'object' items outside a destructure")>>
-M_ObjectCollectIsNotLast == <<S("only the last item in the destructure can collect")>>
-M_SpreadNonListInList(v) == <<S("only lists can be spread in lists, got '"), S(TypeName(v)), S("'")>>
-M_SpreadNonObjectInObject(v) == <<S("only objects can be spread in objects, got '"), S(TypeName(v)), S("'")>>
+    <<PS("cannot bind "), PN(rhsLen), PS(" item(s) to "), PN(rangeLen), PS(" index(s)")>>
+M_ValueNotRangeIndexable == <<PS("only 'list's or 'string's can be range-indexed")>>
+M_NegativeIndex == <<PS("index can't be negative")>>
+M_ListCollectOutsideDestructure == <<PS("cannot collect 'list' items outside a destructure")>>
+M_ObjectCollectOutsideDestructure == <<PS("cannot collect 'object' items outside a destructure")>>
+M_ObjectCollectIsNotLast == <<PS("only the last item in the destructure can collect")>>
+M_SpreadNonListInList(v) == <<PS("only lists can be spread in lists, got '"), PS(TypeName(v)), PS("'")>>
+M_SpreadNonObjectInObject(v) == <<PS("only objects can be spread in objects, got '"), PS(TypeName(v)), PS("'")>>
 M_RangeIndexAssignOnNonIndexable(v) ==
-    <<S("only 'list's or 'string's can be assigned to range indexes, got '"), S(TypeName(v)), S("'")>>
+    <<PS("only 'list's or 'string's can be assigned to range indexes, got '"), PS(TypeName(v)), PS("'")>>
 M_ObjectDestructureOnNonObject(v) ==
-    <<S("only objects can be destructured into objects, got '"), S(TypeName(v)), S("'")>>
-M_SpreadOnObjectDestructure == <<S("can't use spread operator in object destructuring")>>
+    <<PS("only objects can be destructured into objects, got '"), PS(TypeName(v)), PS("'")>>
+M_SpreadOnObjectDestructure == <<PS("can't use spread operator in object destructuring")>>
 M_ListDestructureOnNonList(v) ==
-    <<S("only lists can be destructured into lists, got '"), S(TypeName(v)), S("'")>>
+    <<PS("only lists can be destructured into lists, got '"), PS(TypeName(v)), PS("'")>>
 M_ListDestructureItemMismatch(lhsLen, rhsLen) ==
-    <<S("cannot bind "), N(rhsLen), S(" item(s) to "), N(lhsLen), S(" variable name(s)")>>
+    <<PS("cannot bind "), PN(rhsLen), PS(" item(s) to "), PN(lhsLen), PS(" variable name(s)")>>
 M_SpreadInListDestructure(i) ==
-    <<S("cannot use spread operator (at index "), N(i), S(") of list destructure")>>
-M_PropNotFound(name) == <<S("object doesn't contain property '"), Bt(name), S("'")>>
+    <<PS("cannot use spread operator (at index "), PN(i), PS(") of list destructure")>>
+M_PropNotFound(name) == <<PS("object doesn't contain property '"), PB(name), PS("'")>>
 M_TypeFunctionNotFound(name, v) ==
-    <<S("there is no type function '"), Bt(name), S("' for '"), S(TypeName(v)), S("'")>>
-M_TypeFunctionOnNull == <<S("cannot access type function on 'null'")>>
+    <<PS("there is no type function '"), PB(name), PS("' for '"), PS(TypeName(v)), PS("'")>>
+M_TypeFunctionOnNull == <<PS("cannot access type function on 'null'")>>
 M_PropAccessOnNonObject(v) ==
-    <<S("properties can only be accessed on objects, got '"), S(TypeName(v)), S("'")>>
+    <<PS("properties can only be accessed on objects, got '"), PS(TypeName(v)), PS("'")>>
 M_InterpolatedValueNotString(v) ==
-    <<S("interpolated values can only be strings, got '"), S(TypeName(v)), S("'")>>
-M_InterpolateStringParseFailed == <<S("couldn't parse interpolation slot: ")>>       \* + opaque tail
-M_OpOnRangeIndex == <<S("cannot perform this operation on a range-index")>>
-M_OpOnObjectDestructure == <<S("cannot perform this operation on an object destructure")>>
-M_OpOnListDestructure == <<S("cannot perform this operation on an list destructure")>>
-M_ObjectPropShorthandNotVar == <<S("object property name isn't a variable")>>
-M_DupParamName(name, prev) == <<S("'"), Bt(name), S("' is already declared at ["), L(prev), S("]")>>
-M_SpreadInParamList == <<S("can't use spread operator in parameter list")>>
+    <<PS("interpolated values can only be strings, got '"), PS(TypeName(v)), PS("'")>>
+M_InterpolateStringParseFailed == <<PS("couldn't parse interpolation slot: ")>>       \* + opaque tail
+M_OpOnRangeIndex == <<PS("cannot perform this operation on a range-index")>>
+M_OpOnObjectDestructure == <<PS("cannot perform this operation on an object destructure")>>
+M_OpOnListDestructure == <<PS("cannot perform this operation on an list destructure")>>
+M_ObjectPropShorthandNotVar == <<PS("object property name isn't a variable")>>
+M_DupParamName(name, prev) == <<PS("'"), PB(name), PS("' is already declared at ["), PL(prev), PS("]")>>
+M_SpreadInParamList == <<PS("can't use spread operator in parameter list")>>
 M_BuiltinArgs(fname, exp, got) ==
-    <<S("`"), S(fname), S("` only takes "), N(exp),
-      S(IF exp = 1 THEN " argument (got " ELSE " arguments (got "), N(got), S(")")>>
-M_Dev(text) == <<S("dev error: "), S(text)>>
-M_PrintUtf8 == <<S("couldn't convert error message to UTF-8: ")>>                   \* + opaque tail
-M_ThisUtf8 == <<S("couldn't convert `this` string to UTF-8: ")>>                     \* + opaque tail
-M_PrintCyclic == <<S("can't print a value that contains itself")>>
+    <<PS("`"), PS(fname), PS("` only takes "), PN(exp),
+      PS(IF exp = 1 THEN " argument (got " ELSE " arguments (got "), PN(got), PS(")")>>
+M_Dev(text) == <<PS("dev error: "), PS(text)>>
+M_PrintUtf8 == <<PS("couldn't convert error message to UTF-8: ")>>                   \* + opaque tail
+M_ThisUtf8 == <<PS("couldn't convert `this` string to UTF-8: ")>>                     \* + opaque tail
+M_PrintCyclic == <<PS("can't print a value that contains itself")>>
 
 \* Kinds whose message ends in text produced by the Rust standard library or
 \* the parser generator; compared up to that tail.
